@@ -4,7 +4,7 @@
 // license that can be found in the LICENSE file or at
 // https://opensource.org/licenses/MIT.
 
-use onig::{MatchParam, Regex, RegexOptions, SearchOptions, Syntax};
+use onig::{MatchParam, Regex, RegexOptions, SearchOptions, Syntax, SyntaxOperator};
 
 /// Parse a string as a POSIX Basic Regular Expression.
 fn parse_bre(expr: &str, options: RegexOptions) -> Result<Regex, onig::Error> {
@@ -119,25 +119,37 @@ fn extract_bracket_expr(pattern: &str) -> Option<(String, &str)> {
     }
 }
 
-/// Converts a POSIX glob into a POSIX Basic Regular Expression
-fn glob_to_regex(pattern: &str) -> Option<String> {
-    let mut regex = String::new();
+/// Converts a POSIX glob into POSIX Basic Regular Expressions for the texts
+/// between its `*`s. `bracket_qmark`: write a literal "?" as "[?]".
+fn glob_to_segments(pattern: &str, bracket_qmark: bool) -> Option<Vec<String>> {
+    let mut segments = vec![String::new()];
+    // Did the previous character of the glob end a segment?
+    let mut after_star = false;
 
     let mut chars = pattern.chars();
     while let Some(ch) = chars.next() {
+        let regex = segments.last_mut().unwrap();
+        let push_literal = |regex: &mut String, ch: char| {
+            if ch == '?' && bracket_qmark {
+                regex.push_str("[?]");
+            } else {
+                regex_push_literal(regex, ch);
+            }
+        };
         // https://pubs.opengroup.org/onlinepubs/9699919799/utilities/V3_chap02.html#tag_18_13
         match ch {
             '?' => regex.push('.'),
             '*' => {
-                // Consecutive stars mean the same as one, but each extra ".*"
-                // multiplies the backtracking the matcher may have to do.
-                if !regex.ends_with(".*") {
-                    regex.push_str(".*");
+                // Consecutive stars mean the same as one.
+                if !after_star {
+                    segments.push(String::new());
                 }
+                after_star = true;
+                continue;
             }
             '\\' => {
                 if let Some(ch) = chars.next() {
-                    regex_push_literal(&mut regex, ch);
+                    push_literal(regex, ch);
                 } else {
                     // https://pubs.opengroup.org/onlinepubs/9699919799/functions/fnmatch.html
                     //
@@ -154,14 +166,54 @@ fn glob_to_regex(pattern: &str) -> Option<String> {
                     regex.push_str(&expr);
                     chars = rest.chars();
                 } else {
-                    regex_push_literal(&mut regex, ch);
+                    push_literal(regex, ch);
                 }
             }
-            _ => regex_push_literal(&mut regex, ch),
+            _ => push_literal(regex, ch),
         }
+        after_star = false;
     }
 
-    Some(regex)
+    Some(segments)
+}
+
+/// Converts a POSIX glob into a POSIX Basic Regular Expression
+#[cfg(test)]
+fn glob_to_regex(pattern: &str) -> Option<String> {
+    glob_to_segments(pattern, false).map(|segments| segments.join(".*"))
+}
+
+/// Builds the regular expression for a glob.
+fn parse_glob(pattern: &str, options: RegexOptions) -> Option<Result<Regex, onig::Error>> {
+    let segments = glob_to_segments(pattern, false)?;
+    if segments.len() <= 2 {
+        return Some(parse_bre(&segments.join(".*"), options));
+    }
+
+    // With ".*" for every star, the matcher runs into its backtracking limit
+    // on names of a hundred-odd characters. Only the last star needs
+    // backtracking: the text between two stars is best matched where it is
+    // found first, so the other stars become a lazy ".*?" in an atomic group
+    // "\\(?>...\\)" with the text that follows them. (With these two
+    // operators switched on, a literal "?" has to be written as "[?]".)
+    let mut syntax = *Syntax::posix_basic();
+    syntax.enable_operators(
+        SyntaxOperator::SYNTAX_OPERATOR_QMARK_GROUP_EFFECT
+            | SyntaxOperator::SYNTAX_OPERATOR_QMARK_NON_GREEDY,
+    );
+    let segments = glob_to_segments(pattern, true)?;
+    let (first, rest) = segments.split_first()?;
+    let (last, middle) = rest.split_last()?;
+    let mut regex = first.clone();
+    for segment in middle {
+        regex.push_str(&format!("\\(?>.*?{segment}\\)"));
+    }
+    regex.push_str(&format!(".*{last}"));
+    Some(Regex::with_options(
+        &regex,
+        syntax.options() | options,
+        &syntax,
+    ))
 }
 
 /// An fnmatch()-style glob matcher.
@@ -178,8 +230,8 @@ impl Pattern {
             RegexOptions::REGEX_OPTION_NONE
         };
 
-        // As long as glob_to_regex() is correct, this should never fail
-        let regex = glob_to_regex(pattern).map(|r| parse_bre(&r, options).unwrap());
+        // As long as glob_to_segments() is correct, this should never fail
+        let regex = parse_glob(pattern, options).map(|r| r.unwrap());
         Self { regex }
     }
 
